@@ -268,9 +268,19 @@ def _collect(obj, names, out, modname, depth):
         return
     if inspect.isfunction(obj):
         if obj.__name__ in names and obj.__module__ == modname:
-            out.add(obj.__code__)
+            _add_code(obj.__code__, out)
     elif isinstance(obj, (classmethod, staticmethod)):
         _collect(obj.__func__, names, out, modname, depth)
     elif inspect.isclass(obj) and getattr(obj, "__module__", None) == modname:
         for _, v in list(vars(obj).items()):
             _collect(v, names, out, modname, depth + 1)
+
+
+def _add_code(code, out):
+    """a code object and everything nested in it (inner functions, lambdas such as sort keys, comprehensions)"""
+    if code in out:
+        return
+    out.add(code)
+    for c in code.co_consts:
+        if hasattr(c, "co_code"):
+            _add_code(c, out)
